@@ -54,6 +54,9 @@ pub struct DumpSpec {
     pub proc_status: Option<String>,
     pub proc_limits: Option<String>,
     pub cpuinfo: Option<String>,
+    /// CSD version string of the system info (on Linux: the uname text) and the numeric OS version
+    pub csd: Option<String>,
+    pub os_version: Option<(u32, u32, u32)>,
     pub lsb: Option<String>,
     pub extra_memory: Vec<(u64, Vec<u8>)>,
     /// modules named plugin*.dll share one PDB70 CodeView record with this pdb name
@@ -62,7 +65,7 @@ pub struct DumpSpec {
 impl Default for DumpSpec {
     fn default() -> Self {
         DumpSpec { big_endian: false, os: "windows".into(), cpu: "x86".into(), threads: vec![], has_thread_list: true, exception: None, breakpad: None,
-                   misc_pid: None, misc_create_time: None, modules: vec![], unloaded: vec![], memory_info: vec![], linux_maps: None, proc_status: None, proc_limits: None, cpuinfo: None, lsb: None,
+                   misc_pid: None, misc_create_time: None, modules: vec![], unloaded: vec![], memory_info: vec![], linux_maps: None, proc_status: None, proc_limits: None, cpuinfo: None, csd: None, os_version: None, lsb: None,
                    extra_memory: vec![], twin_pdb: None }
     }
 }
@@ -103,6 +106,22 @@ fn find(hay: &[u8], needle: &[u8]) -> Option<usize> {
 }
 
 pub fn build(spec: &DumpSpec) -> Vec<u8> {
+    let mut out = build_inner(spec);
+    // the frozen writer takes the CSD rva as a number: patched in once the layout is known
+    if let Some(csd) = spec.csd.as_ref().filter(|c| !c.is_empty()) {
+        let big = spec.big_endian;
+        let mut needle: Vec<u8> = if big { ((2 * csd.encode_utf16().count()) as u32).to_be_bytes().to_vec() } else { ((2 * csd.encode_utf16().count()) as u32).to_le_bytes().to_vec() };
+        needle.extend(csd.encode_utf16().flat_map(|u| if big { u.to_be_bytes() } else { u.to_le_bytes() }));
+        let at = find(&out, &needle).expect("csd string");
+        let (_, _, streams) = crate::rich::layout(&out);
+        let si = streams.iter().find(|s| s.stream_type == 7).expect("system info");
+        let b = if big { (at as u32).to_be_bytes() } else { (at as u32).to_le_bytes() };
+        out[si.rva + 24..si.rva + 28].copy_from_slice(&b);
+    }
+    out
+}
+
+fn build_inner(spec: &DumpSpec) -> Vec<u8> {
     // two passes: the exception record names its context by file offset, which is only known once the layout is
     let first = build_pass(spec, (0, 0));
     if let Some(e) = &spec.exception {
@@ -127,7 +146,9 @@ fn build_pass(spec: &DumpSpec, exc_ctx: (u32, u32)) -> Vec<u8> {
     let mut si = synth::SystemInfo::new(endian);
     si.processor_architecture = arch_id(&spec.cpu);
     si.platform_id = platform_id(&spec.os);
+    if let Some((ma, mi, bu)) = spec.os_version { si.major_version = ma; si.minor_version = mi; si.build_number = bu; }
     d = d.add_system_info(si);
+    if let Some(csd) = spec.csd.as_ref().filter(|c| !c.is_empty()) { d = d.add(synth::DumpString::new(csd, endian)); }
     if let Some(mp) = &spec.misc_pid {
         let mut m = synth::MiscStream::new(endian);
         m.process_id = *mp;
